@@ -415,7 +415,7 @@ func (x *fnExec) contractCall(fr *frame, st *State, ci ssa.CallInstruction, res 
 		}
 		v2 := copyVars(vars)
 		x.bindResults(v2, fn, cl, rv)
-		env := &specEnv{x: x, vars: v2, cur: st, old: pre, info: cl.Info}
+		env := &specEnv{x: x, vars: v2, cur: st, old: pre, info: cl.Info, callee: true}
 		env.assumeClause(cl, st)
 	}
 	if c.Trusted {
